@@ -189,14 +189,32 @@ type recCtl struct {
 	onUpdate func(m tea.Msg, version int) tea.Cmd // decides the command returned
 	viewOf   func(version int, updates int) string
 	gates    map[string]*gate // "init", "update:<msg>", "view", "filter:<msg>"
-	panicOn  map[string]bool  // same keys: panic there
+	panicOn  panicSet         // same keys: panic there
 	yield    bool
 	rng      *rng
 	rmu      sync.Mutex
 }
 
 func newRecCtl() *recCtl {
-	return &recCtl{log: &evLog{}, gates: map[string]*gate{}, panicOn: map[string]bool{}}
+	return &recCtl{log: &evLog{}, gates: map[string]*gate{}, panicOn: panicSet{m: map[string]bool{}, mu: &sync.Mutex{}}}
+}
+
+// panicSet: the callbacks at which the model panics; set while the program runs, read by its callbacks
+type panicSet struct {
+	mu *sync.Mutex
+	m  map[string]bool
+}
+
+func (p panicSet) set(key string) {
+	p.mu.Lock()
+	p.m[key] = true
+	p.mu.Unlock()
+}
+
+func (p panicSet) has(key string) bool {
+	p.mu.Lock()
+	defer p.mu.Unlock()
+	return p.m[key]
 }
 
 func (c *recCtl) enter(kind, arg string) {
@@ -226,7 +244,7 @@ func (c *recCtl) pause(key string) {
 			time.Sleep(time.Duration(50) * time.Microsecond)
 		}
 	}
-	if c.panicOn[key] {
+	if c.panicOn.has(key) {
 		panic("harness: injected panic at " + key)
 	}
 }
